@@ -188,7 +188,7 @@ func (c *vFakeCompressor) Close() error {
 	return err
 }
 
-//verif:replace connectrpc.com/conformance/internal/compression.GetCompressor vModelGetCompressor
+// (replaces compression.GetCompressor for H17e only; see the harness registry)
 func vModelGetCompressor(c conformancev1.Compression) (connect.Compressor, error) {
 	switch {
 	case c == 0 || c == 1:
